@@ -79,6 +79,7 @@ def histOverride (j : Json) : R Json := do
   let r := overrideAll h0 (steps.map fun s => (m, s))
   pure (Json.mkObj [
     ("shared", natsJ (r.2.map fun c => (c.filter fun i => m.contains i).length)),
+    ("shared_relu", natsJ (r.2.map fun c => (c.filter fun i => m.contains i && (h0[i]?.getD default).relu).length)),
     ("user_rules", Json.arr ((rulesOf r.1 m).map ruleJ).toArray),
     ("clone_rules", Json.arr (r.2.map fun c => Json.arr ((rulesOf r.1 c).map ruleJ).toArray).toArray)])
 
